@@ -167,6 +167,67 @@ def oracle(hist, steps, base):
     return None
 
 
+def split_strings(rng, n=300):
+    """addition strings: the ones the histories use, C07's, and made-up dotted names with 0..4 dots (empty
+    segments included) under a root that cannot be imported"""
+    out = [a for adds in ADDS if adds for a in adds]
+    out += ["collections.abc.Mapping", "pickle.loads", "_pickle.loads", "verif_sink.record", "nodot", "", ".", "a.", ".a"]
+    segs = ["a", "b", "loader", "x1", "", "Mapping", "abc"]
+    for _ in range(n):
+        k = rng.randrange(0, 5)
+        out.append(".".join(["zzverifroot"] + [rng.choice(segs) for _ in range(k)]))
+    seen, uniq = set(), []
+    for s in out:
+        if s not in seen:
+            seen.add(s)
+            uniq.append(s)
+    return uniq
+
+
+def split_correspondence(chk):
+    strings = split_strings(chk.rng)
+    p = subprocess.run([PY, CHILD], input=json.dumps({"splits": strings}), capture_output=True, text=True,
+                       env=env_child({"PYTHONDONTWRITEBYTECODE": "1"}), timeout=600, cwd=VERIF)
+    lines = [l for l in p.stdout.splitlines() if l.startswith("{")]
+    if p.returncode != 0 or not lines:
+        return [{"error": f"child failed rc={p.returncode}: {p.stderr[-400:]}"}], 0
+    real = json.loads(lines[-1])["splits"]
+    from harness.common import wire
+    model = Driver().query([sx(["split_adds"] + [wire(s) for s in strings])])[0].split("|") if strings else []
+    import fickling.ml as fml
+    bad = []
+    for s, r, m in zip(strings, real, model):
+        if m == "ERR":
+            want = "ERR"
+        else:
+            mh, nh = m.split(",")
+            mm, nn = bytes.fromhex(mh[1:]).decode(), bytes.fromhex(nh[1:]).decode()
+            cut = len(mm)
+            want = [] if nn in fml.ML_ALLOWLIST.get(mm, ()) else [cut]
+        got = "ERR" if isinstance(r, str) and r.startswith("ERR") else r
+        if got != want:
+            bad.append({"addition": s, "model_split": m, "model_permits_cut_at": want, "real_permits_cuts_at": r})
+        chk.count()
+    chk.stats["addition strings split"] = len(strings)
+    return bad, len(strings)
+
+
+def split_oracle(b):
+    """C11 on one addition string, model-free: the permitted set is EXACTLY built-in + the addition, so of all
+    the ways to read the text s as (module, name) only the cut at the last dot may be permitted through it"""
+    s, real = b["addition"], b["real_permits_cuts_at"]
+    if not isinstance(real, list) or "." not in s:
+        return None          # the constructor raised / nothing to cut: no pair is permitted, the property holds
+    last = s.rindex(".")
+    extra = [i for i in real if i != last]
+    if extra:
+        def pair(i):
+            return (s[:last].rsplit(".", 1)[0], s[last + 1:]) if i == -1 else (s[:i], s[i + 1:])
+        return (f"addition {s!r} also permits {[pair(i) for i in extra]} besides its own pair "
+                f"{(s[:last], s[last + 1:])}: not in the built-in table and never added")
+    return None
+
+
 def shrink(hist, budget=60):
     """greedy deletion of operations while the oracle still fails (each trial in a fresh fork)"""
     cur = list(hist)
@@ -261,6 +322,16 @@ def main(tier, seed):
         if rnd_runs:
             h, steps = rnd_runs[0]
             chk.sample({"history": h[:10], "observed": steps[:10]})
+    # the glue between the caller's addition STRINGS and the pairs of the model: rsplit(".", 1)
+    if built:
+        split_bad, nsplit = split_correspondence(chk)
+        so_bad = [w for w in (split_oracle(b) for b in split_bad) if w]
+        chk.oblige("property oracle (model-free): no addition string permits a pair other than its own", not so_bad,
+                   json.dumps(so_bad[:3]))
+        chk.oblige(f"correspondence: addition string -> permitted (module, name) pair, model AddSplit.rsplit_dot vs "
+                   f"find_class of FicklingMLUnpickler(also_allow=[s]) on every cut of s, {nsplit} strings",
+                   not split_bad, json.dumps(split_bad[:3]))
+        bad += split_bad
     # the property itself, model-free, on every observed history (two-variable model: BASE, current additions)
     orc_bad = []
     for h, steps in runs_all:
@@ -276,7 +347,12 @@ def main(tier, seed):
 
     def search():
         seen = set()
-        cands = [b["history"] for b in bad] + [h for h, _ in runs_all]
+        # an addition that permits a pair other than its own rsplit is a concrete input for the property
+        for b in bad:
+            why = split_oracle(b) if "addition" in b else None
+            if why:
+                return {"oracle": why, "addition": b["addition"], "real_permits_cuts_at": b["real_permits_cuts_at"]}
+        cands = [b["history"] for b in bad if "history" in b] + [h for h, _ in runs_all]
         lookup = {json.dumps(h): s for h, s in runs_all}
         for h in cands:
             key = json.dumps(h)
@@ -304,6 +380,17 @@ def main(tier, seed):
 def replay(path):
     doc = json.load(open(path))
     case = doc.get("case")
+    if case and "addition" in case:
+        p = subprocess.run([PY, CHILD], input=json.dumps({"splits": [case["addition"]]}), capture_output=True,
+                           text=True, env=env_child({"PYTHONDONTWRITEBYTECODE": "1"}), timeout=600, cwd=VERIF)
+        real = json.loads([l for l in p.stdout.splitlines() if l.startswith("{")][-1])["splits"][0]
+        why = split_oracle({"addition": case["addition"], "real_permits_cuts_at": real})
+        if why:
+            print(f"VIOLATION property=C11 replay={path}")
+            print(why)
+            return 1
+        print("replay: the recorded addition no longer fails")
+        return 0
     if not case or "history" not in case:
         print("replay: no concrete history recorded; re-running the quick check")
         return main("quick", doc.get("seed", 0))
